@@ -37,6 +37,7 @@ def set_dimensions(poly: PolyLike, dimensions: Optional[int] = None) -> ndpoly:
     poly = numpoly.aspolynomial(poly)
     if dimensions is None:
         dimensions = len(poly.names) + 1
+    dimensions = int(dimensions)  # (a numpy unsigned integer would wrap below)
     diff = dimensions - len(poly.names)
     if diff > 0:
         padding = numpy.zeros((len(poly.exponents), diff), dtype="uint32")
